@@ -262,8 +262,54 @@ def s_symstore(rng, depth, variant=None):
                     setup_extra=extra, init_variants=[[(A, 0, x0)] for x0 in (0, 1, 7)])
 
 
+def s_symmap(rng, depth, variant=None):
+    """SYMBOLIC target storage with a mapping: `set(){m[k1]=1; armed=1}` writes one entry, `probe(){if (armed) seen = m[k2]}` reads
+    another, never-written entry (k2 a literal ≠ k1, or taken from calldata with require(k != k1)); `armed` and `seen` are assumed
+    0 in setUp, so `seen != 0` needs set-then-probe from an initial storage with m[k2] ≠ 0 (arbitrary under symbolic storage).
+    Variants ≥ 4 add the write-then-read inside one call."""
+    v = rng.randrange(6) if variant is None else variant
+    k1, k2, k3 = 1, 2, rng.choice([3, 5])
+    A = FIRST_CREATED
+    m = lambda key: map_slot(key, 0)  # noqa: E731
+    armed = [2, "SLOAD"]
+    set_ = TFn("set()", [1] + m([("push", k1)]) + ["SSTORE", 1, 2, "SSTORE"])
+    probe = TFn("probe()", asm.if_then(armed, m([("push", k2)]) + ["SLOAD", 1, "SSTORE"]))
+    probe_at = TFn("probeAt(uint256 k)", require(X + [("push", k1), "EQ", "ISZERO"]) + asm.if_then(armed, m(X) + ["SLOAD", 1, "SSTORE"]),
+                   domains=[[k2, k3]])
+    both = TFn("setAndProbe()", [1] + m([("push", k1)]) + ["SSTORE"] + m([("push", k2)]) + ["SLOAD", 1, "SSTORE"])
+    reader = probe if v % 4 < 2 else probe_at
+    fns = [set_, reader] if v % 2 == 0 else [reader, set_]
+    if v >= 4:
+        fns.append(both)
+    fns += [TFn("seen()", asm.return_word([1, "SLOAD"]), mutability="view"), TFn("armed()", asm.return_word(armed), mutability="view")]
+    tgt = Target("SymMap", fns)
+    seen = call_view(A, asm.selector("seen()"))
+    arm = call_view(A, asm.selector("armed()"))
+    invs = [Inv("invariant_seen_zero", fail_if(seen + ["ISZERO", "ISZERO"])),
+            Inv("invariant_seen_ne7", fail_if(asm.eq_const(seen, 7), "flag")),
+            Inv("invariant_not_armed", fail_if(arm))]
+    extra = asm.cheat_call(asm.SVM_ADDRESS, 0xDC00BA4D, [[("push", A)]]) + e2e.assume_or_stop(seen + ["ISZERO"]) + \
+        e2e.assume_or_stop(arm + ["ISZERO"])
+
+    def slot(key):
+        return int.from_bytes(asm.keccak256(key.to_bytes(32, "big") + (0).to_bytes(32, "big")), "big")
+
+    inits = [[(A, slot(k2), x0)] for x0 in (0, 1, 7)] + [[(A, slot(k3), 7)], [(A, slot(k1), 5), (A, slot(k2), 7)]]
+
+    def replay_inits(calls, model):
+        out = []
+        for (_addr, fn, args, _v, _c) in calls:
+            if fn == "probeAt" and args:
+                k = _tok(args[0], model) % e2e.W
+                out += [[(A, slot(k), 7)], [(A, slot(k), 1)]]
+        return out
+
+    return Scenario("InvSymMap", [tgt], invs, replay_inits=replay_inits, kind="symbolic-mapping:" + ("literal-key" if reader is probe else "calldata-key")
+                    + (":write-first" if v % 2 == 0 else ":read-first"), setup_extra=extra, init_variants=inits)
+
+
 TEMPLATES = [s_counter, s_counter, s_setter, s_toggle, s_token, s_token, s_owned, s_owned, s_clock, s_two, s_two, s_two, s_boom,
-             s_symstore]
+             s_symstore, s_symmap]
 
 
 # ------------------------------------------------------------------------------------------------ halmos output
@@ -472,7 +518,8 @@ def check_scenarios(ctx, items):
                     continue
                 # the model does not name the arbitrary initial storage (symbols `storage_…`): a replay from any admissible
                 # initial storage counts
-                tries = [replay_lines(rep, scn, blk, inv.name, init) for init in scn.init_variants]
+                inits = list(scn.init_variants) + (scn.replay_inits(blk["calls"], blk["model"]) if scn.replay_inits else [])
+                tries = [replay_lines(rep, scn, blk, inv.name, init) for init in inits]
                 it["replays"].append((inv.name, blk, tries))
     rep.run(ctx)
     for it in items:
@@ -525,6 +572,8 @@ def judge(ctx, it, rep):
             needs = "block-number-only-difference" if scn.kind == "clock-roll" else ("filters:" + fk if scn.filters else "plain")
             if scn.kind.startswith("symbolic-storage"):
                 needs = "untouched-arbitrary-slot-vs-explicit-zero"
+            if scn.kind.startswith("symbolic-mapping"):
+                needs = "read-of-unwritten-key-after-write-of-another-key"
             if flagged:
                 ctx.count("pass-on-violation-but-flagged")
                 if not callable_ or inv_errors:
@@ -597,7 +646,7 @@ def make_item(seed, tmpl_idx, depth, mode=None, variant=None):
     tmpl = TEMPLATES[tmpl_idx % len(TEMPLATES)]
     if mode:
         scn = tmpl(rng, depth, mode)
-    elif variant is not None and tmpl in (s_token, s_owned, s_two, s_symstore):
+    elif variant is not None and tmpl in (s_token, s_owned, s_two, s_symstore, s_symmap):
         scn = tmpl(rng, depth, variant)
     else:
         scn = tmpl(rng, depth)
@@ -625,6 +674,9 @@ def correspond(ctx):
     # directed: symbolic target storage, "explicit zero" vs "never written", both function orders
     for v in range(6):
         items.append(make_item(3000 + v, TEMPLATES.index(s_symstore), 1 + v % 2, variant=v))
+    # directed: symbolic mapping storage, write m[k1] then read the never-written m[k2] (literal / calldata key, both orders)
+    for v in range(6):
+        items.append(make_item(4000 + v, TEMPLATES.index(s_symmap), 2 if v < 4 else (1 + v % 2 * 2), variant=v))
     n = ctx.scale(30, 390)
     for i in range(n):
         t = i % len(TEMPLATES)
